@@ -19,6 +19,8 @@ enum COp {
     Flush,
     /// a read that goes through `snapshot()` / `snapshot_owned()`: 0 = list_namespaces, 1 = list_authors, 2 = get_many, 3 = content_hashes
     Snap(u8),
+    /// a store call whose closure fails inside `modify()`: set_download_policy for a document that does not exist
+    FailingModify,
 }
 
 fn gen_op(rng: &mut Rng, w: &World, stats: &mut Stats) -> COp {
@@ -32,7 +34,8 @@ fn gen_op(rng: &mut Rng, w: &World, stats: &mut Stats) -> COp {
         0..=1 => { stats.inc("op_insert"); COp::Insert { au, key, hash, len, now: ts } }
         2..=3 => { stats.inc("op_delete"); COp::Delete { au, key, now: ts } }
         4 => { stats.inc("op_flush"); COp::Flush }
-        5..=6 => { stats.inc("op_snapshot_read"); COp::Snap(rng.below(4) as u8) }
+        5 => { stats.inc("op_snapshot_read"); COp::Snap(rng.below(4) as u8) }
+        6 => { stats.inc("op_failing_modify"); COp::FailingModify }
         _ => {
             stats.inc("op_remote");
             if rng.chance(1, 4) { COp::Remote(w.signed(au, &key, empty_hash(), 0, ts)) } else { COp::Remote(w.signed(au, &key, hash, len, ts)) }
@@ -47,6 +50,7 @@ fn ccop(w: &World, o: &COp) -> String {
         COp::Delete { au, key, now } => format!("(CDelete {} {} {})", n256(w.authors[*au].id().as_bytes()), cbytes(key), now),
         COp::Flush => "CFlush".into(),
         COp::Snap(_) => "CSnap".into(),
+        COp::FailingModify => "CFailingModify".into(),
     }
 }
 fn jcop(o: &COp) -> String {
@@ -56,6 +60,7 @@ fn jcop(o: &COp) -> String {
         COp::Delete { au, key, now } => format!("\"delete_prefix author#{} key={} now={}\"", au, hex::encode(key), now),
         COp::Flush => "\"flush\"".into(),
         COp::Snap(k) => format!("\"{}\"", ["list_namespaces", "list_authors", "get_many", "content_hashes"][*k as usize]),
+        COp::FailingModify => "\"set_download_policy on an unknown document (refused)\"".into(),
     }
 }
 
@@ -74,6 +79,10 @@ fn apply(rt: &tokio::runtime::Runtime, store: &mut Store, w: &World, o: &COp) ->
         COp::Snap(1) => { let _ = store.list_authors()?.count(); }
         COp::Snap(2) => { let _ = store.get_many(w.ns_id(), Query::all())?.count(); }
         COp::Snap(_) => { let _ = store.content_hashes()?.count(); }
+        COp::FailingModify => {
+            let r = store.set_download_policy(&iroh_docs::NamespaceId::from(&[0xEEu8; 32]), iroh_docs::store::DownloadPolicy::default());
+            anyhow::ensure!(r.is_err(), "set_download_policy on an unknown document succeeded");
+        }
         _ => {
             // the replica info is loaded without touching the store's transaction state twice:
             // open_replica calls tables() once; that call is part of the operation
@@ -82,7 +91,7 @@ fn apply(rt: &tokio::runtime::Runtime, store: &mut Store, w: &World, o: &COp) ->
                 COp::Remote(e) => { verif::set_clock(T0 + 10); let _ = rt.block_on(replica.insert_remote_entry(e.clone(), [3u8; 32], ContentStatus::Missing)); }
                 COp::Insert { au, key, hash, len, now } => { verif::set_clock(*now); let _ = rt.block_on(replica.insert(key, &w.authors[*au], iroh_blobs::Hash::from_bytes(*hash), *len)); }
                 COp::Delete { au, key, now } => { verif::set_clock(*now); let _ = rt.block_on(replica.delete_prefix(key, &w.authors[*au])); }
-                COp::Flush | COp::Snap(_) => unreachable!(),
+                COp::Flush | COp::Snap(_) | COp::FailingModify => unreachable!(),
             }
             drop(replica);
             store.close_replica(w.ns_id());
